@@ -90,6 +90,11 @@ var checks = map[string]checkSpec{
 		Quick:     40 * time.Second, Thorough: 10 * time.Minute, Level: "exploration",
 		Rule: "fields: for every API that both kafka-go and the reference codec implement, a protocol.Conn over the simulated network negotiates versions against randomised broker ranges (ApiVersions + SelectVersion, as Transport does) and sends a request filled with generated values (boundary integers, empty/long/non-ASCII strings, nil/empty/non-empty blobs and arrays, nested arrays); the broker model strictly decodes it (size prefix, header, version within the advertised range, client id, canonical body) and the decoded values are compared by Kafka field *name* with the values the caller set; it answers with a generated response for that version plus unknown top-level tagged fields in flexible versions, which the library must decode to exactly those values and consume as exactly one frame (a further exchange on the connection must succeed); run against the default build of the protocol package and against its `unsafe` build (-tags unsafe). The same always-on monitor decodes every request of every other scenario (Conn's hand-written codec in connerr/queries, Transport in all others).",
 	},
+	"C10": {
+		Scenarios: []scnSpec{{Name: "racemix", Flavour: "race", Share: 1}},
+		Quick:     90 * time.Second, Thorough: 20 * time.Minute, Level: "exploration",
+		Rule: "race flavour: generated concurrent client programs over the exported methods of Writer (WriteMessages from several goroutines, Stats, Close at a generated instant, every built-in balancer, multi-topic), Reader with and without a consumer group (FetchMessage/ReadMessage, CommitMessages, SetOffset/SetOffsetAt, Offset, Lag, ReadLag, Stats, Config, Close, a second member joining), Conn (ReadBatch/ReadMessage, WriteMessages, deadline setters, Offset/ReadOffsets/ReadPartitions, Close racing with I/O), Batch (Read/ReadMessage, accessors, Close), Client/Transport (six request kinds from several goroutines, CloseIdleConnections), the balancers and the codecs, run against the simulated cluster (seeded faults, fake clock) with the goroutines free-running on 4 Ps under the Go race detector. The build overlay replaces the library's sync primitives by channel-based ones that block durably inside the bubble and synchronise only through the primitive's own channel (a mutex's edge on that mutex and nothing else); simulated connections give the detector the Write-release / Read-acquire edge internal/poll gives real sockets. Any report with a library frame on either access is a violation, de-duplicated by the pair of access sites; a report purely inside the harness is machinery trouble (exit 2).",
+	},
 	"C07": {
 		Scenarios: []scnSpec{{Name: "writer", Params: "focus=order", Share: 1}},
 		Quick:     35 * time.Second, Thorough: 10 * time.Minute, Level: "exploration",
